@@ -222,6 +222,8 @@ def one_run(ctx, corrs, stock_only=False, dense=False, rs=None, k=None):
             if changed:
                 ctx.nontrivial(op["op"], tuple(sorted({c[0].split(".")[-1] for c in changed}))[:6], op["args"].get("effect"), bool(op["args"].get("order")))
     bad = acct_sync.run_sync(ctx, corrs, ix, ops, ctx.stats)
+    import tstream, world_sync
+    world_sync.run_sync(ctx, tstream.world_corrs(ctx), tr, ix)       # the free-running composed model against the whole run
     for prev_op, op, d in acct_sync.chain_check(ops, ctx.stats):
         # creation of an EMPTY holding between two operations (matcher asking for the close-today amount) is neutral
         if all(x[0] == "holdings" for x in d):
